@@ -1,6 +1,7 @@
 package props
 
 import (
+	"math"
 	"bytes"
 	"fmt"
 	"io"
@@ -594,6 +595,19 @@ func exerciseNode(c *mon.Case, st *store.Store, how string, n ipld.Node, keys []
 				rs.Read(make([]byte, 2))
 			}},
 			{"Seek(whence=7)", func(rs io.ReadSeeker) { rs.Seek(1, 7); rs.Read(make([]byte, 2)) }},
+			{"int64-extreme seeks", func(rs io.ReadSeeker) {
+				// positions that overflow int64 when added to a non-zero base, each followed by reads
+				buf := make([]byte, 3)
+				rs.Read(buf)
+				for _, sk := range []struct {
+					off    int64
+					whence int
+				}{{math.MaxInt64, io.SeekCurrent}, {math.MaxInt64, io.SeekEnd}, {math.MaxInt64, io.SeekStart}, {1, io.SeekCurrent}, {math.MinInt64, io.SeekCurrent}, {math.MinInt64, io.SeekEnd}, {math.MinInt64 + 1, io.SeekStart}, {math.MaxInt64 - 2, io.SeekCurrent}} {
+					rs.Seek(sk.off, sk.whence)
+					rs.Read(buf)
+					rs.Seek(0, io.SeekCurrent)
+				}
+			}},
 			{"Read(0)", func(rs io.ReadSeeker) { rs.Read(nil) }},
 			{"ReadAll", func(rs io.ReadSeeker) {
 				total := int64(0)
